@@ -404,7 +404,7 @@ class C10(Prop):
 
     def extract(self, ctx):
         from ..extract import e5_gates
-        text = e5_gates.generate(REPO, self.MB, self.IN)
+        text = e5_gates.generate(REPO, self.MB, self.IN, self.clock)
         changed = write_if_changed(LEAN / "Operon" / "Gen" / "GatesConsts.lean", text)
         from ..extract import py2lean_gates
         return [{"id": "E5-gates", "facts_changed": bool(changed),
